@@ -587,7 +587,8 @@ pub struct RawSentence {
 
 pub const TAG_POOL: &[&str] = &[
     "N", "名詞", "N-x", "a/b", "x y", "A|B", "b\\c", "\\", "/", "-", "|", " ", "カセー", "𠀋", "é",
-    "動詞-自立", "t", "/ /", "--", "a\\/b", "\\\\", "助詞", "ヨイ", "0",
+    "動詞-自立", "t", "/ /", "--", "a\\/b", "\\\\", "助詞", "ヨイ", "0", "名詞\u{3000}一般", "a\tb", "x\u{a0}y", "l\nm",
+    "\u{2028}", "q\r", "\u{85}z",
 ];
 
 pub fn raw_sentence(max_len: usize, label_kinds: u8) -> impl Strategy<Value = RawSentence> {
